@@ -2,9 +2,10 @@
 (* TetraWeightsParal.weight_1k1b_priv: one band in one parallelepiped K-point (8 corner energies, centre energy);
    every assignment of corner energies from CVALS, centre from CENTERS, Fermi level from EFS, der 0..3 *)
 EXTENDS TetraWeights
-CONSTANTS CVALS, CENTERS, EFS
+CONSTANTS CVALS, CENTERS, EFS1     \* EFS1 = Fermi levels + 1 (cfg files cannot hold negative numbers)
 VARIABLES ec, c, ef, der, admissible, welldef, w, closed
 vars == <<ec, c, ef, der, admissible, welldef, w, closed>>
+EFS == {x - 1 : x \in EFS1}
 NA == <<0, 0>>
 Cubes == [1..2 -> [1..2 -> [1..2 -> CVALS]]]
 T(cc, e0) == ParalTetrahedra(e0, cc)
